@@ -36,7 +36,7 @@ def _layouts(naggs):
     return seen
 
 
-def _pivot_check(rows, layout, naggs, by_name, swap):
+def _pivot_check(rows, layout, naggs, by_name, swap, order_by=None):
     """swap: PIVOT BY k, r instead of r, k."""
     targets = _targets(layout, naggs)
     names = [t.name or t.expression.name for t in targets]
@@ -44,8 +44,8 @@ def _pivot_check(rows, layout, naggs, by_name, swap):
     i1, i2 = names.index(first), names.index(second)
     refs = [col(first), col(second)] if by_name else [i1 + 1, i2 + 1]
     group = ast.GroupBy([col('r'), col('k')], None)
-    plain = sel(targets, 't', group_by=group)
-    pivoted = sel(targets, 't', group_by=group, pivot_by=ast.PivotBy(refs))
+    plain = sel(targets, 't', group_by=group, order_by=order_by)
+    pivoted = sel(targets, 't', group_by=group, order_by=order_by, pivot_by=ast.PivotBy(refs))
     conn = connect(t=HTable('t', COLUMNS, rows))
     desc0, rows0 = execute(conn, plain)
     desc1, rows1 = execute(conn, pivoted)
@@ -120,6 +120,27 @@ def reshape_falsy(r1, r2, k0, k1, k2, v0, v1, v2, swap):
     kk = [pick([0, 1, -1, 9, 10, -10], k) for k in (k0, k1, k2)]
     rows = list(zip(rr, kk, (v0, v1, v2)))
     return _pivot_check(rows, ('r', 'k', 'agg'), 1, True, True if swap else False) or 'ok'
+
+
+ORDERS = [
+    lambda: [ast.OrderBy(col('r'), ast.Ordering.DESC)],
+    lambda: [ast.OrderBy(col('r'), ast.Ordering.ASC)],
+    lambda: [ast.OrderBy(col('k'), ast.Ordering.DESC), ast.OrderBy(col('r'), ast.Ordering.DESC)],
+    lambda: [ast.OrderBy(func('sum', col('v')), ast.Ordering.DESC)],
+    lambda: [ast.OrderBy(1, ast.Ordering.DESC), ast.OrderBy(2, ast.Ordering.DESC)],
+]
+
+
+@cond('C15.reshape.ordered', quick=240, thorough=600,
+      bounds='3 base rows (r, k in {0,1} enumerated, v symbolic int); SELECT r, k, sum(v) ... GROUP BY r, k ORDER BY <one of 5 '
+             'forms: first pivot column DESC / ASC, second then first DESC, the aggregate DESC, positions DESC> PIVOT BY r, k or k, r: '
+             'the pivoted rows and blocks are ascending whatever the ORDER BY clause',
+      symbolic='v cells, pivot order bit', enumerated='r, k cells, ORDER BY form',
+      params={**{f'{c}{i}': int for c in 'rk' for i in range(3)}, **{f'v{i}': int for i in range(3)},
+              'swap': bool, 'order': int}, group='C15.reshape')
+def reshape_ordered(swap, order, **kw):
+    rows = [(KEY2.build(f'r{i}', kw), KEY2.build(f'k{i}', kw), kw[f'v{i}']) for i in range(3)]
+    return _pivot_check(rows, ('r', 'k', 'agg'), 1, True, True if swap else False, pick(ORDERS, order)()) or 'ok'
 
 
 @cond('C15.validate', quick=120,
